@@ -101,6 +101,7 @@ class Rec:
         self.ext_begin = None
         self.outcome = 'ok'
         self.nested = []         # (t, m, fname) reads made from inside doPoll / initialReads
+        self.inner = []          # [t, m, p, d]: read functions the poll thread's own code called while another of its calls was open
         self.stamps = {}         # (m, p) -> last seen timestamp
         self.track = []          # (m, p, pobj)
         self.in_wait = False
@@ -342,18 +343,31 @@ def build_classes(rec, spec_mods, T):
                 rec.end()
         ns['initialReads'] = initialReads
 
+        def make_write(name, d, o):
+            # the write function of a start value (called by writeInitParams): takes time, fails in every way a read can
+            def wf(self, value, _d=d, _o=o):
+                rec.depth += 1
+                try:
+                    rec.handoff()
+                    if _d:
+                        T.sleep(_d / TICKS)
+                    _raise(_o)
+                    return value
+                finally:
+                    rec.depth -= 1
+            wf.__name__ = 'write_' + name
+            return wf
+
         if spec.get('written'):
             ns['w'] = Parameter('written at start', FloatRange(), default=0, readonly=False)
-
             wd, wo = spec.get('wscript', [0, 'ok'])
-
-            def write_w(self, value, _d=wd, _o=wo):
-                # the write of the configured value at start-up (inside writeInitParams, i.e. inside a 'w' call)
-                if _d:
-                    T.sleep(_d / TICKS)
-                _raise(_o)
-                return value
-            ns['write_w'] = write_w
+            ns['write_w'] = make_write('w', wd, wo)
+        for p in spec['params']:
+            # a generated parameter of any kind of declaration (plain / @nopoll / no read function / read handler /
+            # common read handler, with or without nopoll) may have a start value and a write function
+            if p.get('w') and p['name'] not in ('value', 'status'):
+                ns[p['name']] = Parameter('generated, written at start', FloatRange(), default=0, readonly=False)
+                ns['write_' + p['name']] = make_write(p['name'], p['w'][0], p['w'][1])
         if not spec.get('enabled', True):
             ns['enablePoll'] = False
 
@@ -402,6 +416,57 @@ def decls_of(spec, mobj):
                 k = 'commonFirst' if n == first else 'commonRest'
             res.append([k, np_ == 'inner', np_ == 'outer'])
     return res
+
+
+def _wrap_read(rec, orig, i, pid):
+    import functools
+
+    @functools.wraps(orig)          # keeps __name__ and the `poll` flag the thread tests
+    def rw(*args, **kwds):
+        if rec.poller is None or not rec.is_poller() or rec.depth > 0:
+            return orig(*args, **kwds)          # another thread, or the module's own code
+        cur = rec.cur
+        if cur is None:
+            # called by the poll thread's own code, not through callPollFunc: a call of its own
+            rec.begin(i, pid)
+            try:
+                return orig(*args, **kwds)
+            except BaseException as e:
+                if type(e).__name__ != 'SchedAbort' and rec.outcome == 'ok':
+                    rec.outcome = _classify(e)
+                raise
+            finally:
+                if rec.cur is not None:
+                    rec.end()
+        if cur['m'] == i and cur['f'] == pid and not cur.get('entered'):
+            cur['entered'] = True               # the call callPollFunc was asked to make
+            return orig(*args, **kwds)
+        t0 = rec.now()                          # inside another call of the poll thread (say, from the write wrapper)
+        try:
+            return orig(*args, **kwds)
+        finally:
+            rec.inner.append([t0, i, pid, rec.now() - t0])
+    return rw
+
+
+def _wrap_write(rec, orig, i, pid):
+    import functools
+
+    @functools.wraps(orig)
+    def ww(*args, **kwds):
+        if rec.poller is None or not rec.is_poller() or rec.depth > 0 or rec.cur is not None:
+            return orig(*args, **kwds)
+        rec.begin(i, ['w', pid])                # `write_<p>(value)` called by the poll thread's own code (writeInitParams)
+        try:
+            return orig(*args, **kwds)
+        except BaseException as e:
+            if type(e).__name__ != 'SchedAbort':
+                rec.outcome = _classify(e)
+            raise
+        finally:
+            if rec.cur is not None:
+                rec.end()
+    return ww
 
 
 WINDOW = ('c13.window',)
@@ -483,6 +548,9 @@ def impl_run(case):
                 c['io'] = 'm0'
             if spec.get('written'):
                 c['w'] = {'value': 1.0}
+            for p in spec['params']:
+                if p.get('w') and p['name'] not in ('value', 'status'):
+                    c[p['name']] = {'value': 1.0}
             cfg['m%d' % mi] = c
         node = Node(cfg)
         if node.errors:
@@ -516,8 +584,10 @@ def impl_run(case):
                     rec.track.append((i, pid, pobj))
                     rec.stamps[(i, pid)] = pobj.timestamp or 0
             iv = _tick(mobj.pollinterval)
+            # what module initialisation has put into `writeDict`: the start values the thread has to write
+            pending = [names.index(n) for n in mobj.writeDict]
             model_mods.append({'enabled': enabled, 'slow': _tick(mobj.slowinterval), 'decls': decls,
-                               'pollinterval': iv, 'interval': iv, 'stamps': stamps})
+                               'pollinterval': iv, 'interval': iv, 'stamps': stamps, 'pending': pending})
             judge_mods.append({'enabled': enabled, 'slow': _tick(mobj.slowinterval), 'decls': decls,
                                'pollinterval': iv, 'cmds': [], 'names': names})
             rec.cmds[i] = judge_mods[-1]['cmds']
@@ -542,15 +612,17 @@ def impl_run(case):
                         rec.end()
             mobj.callPollFunc = cpf
 
-            def wip(_orig=mobj.writeInitParams, _i=i):
-                # every `writeInitParams` of the poll thread — in the start-up round and behind it — is a call of its own ('w')
-                rec.begin(_i, 'w')
-                try:
-                    return _orig()
-                finally:
-                    if rec.cur is not None:
-                        rec.end()
-            mobj.writeInitParams = wip
+            # every read function and every write function of the module, as the poll thread's own code finds them
+            # (`getattr(mobj, 'read_' + pname)`): what the framework code of the poll thread calls — in the loop, in
+            # the start-up round, inside writeInitParams, anywhere — is an observation; what a module's own doPoll /
+            # initialReads / read / write function calls in turn (rec.depth > 0) is not.
+            for pid, n in enumerate(list(mobj.parameters)):
+                orig_r = getattr(mobj, 'read_' + n, None)
+                if orig_r is not None:
+                    mobj.__dict__['read_' + n] = _wrap_read(rec, orig_r, i, pid)
+                orig_w = getattr(mobj, 'write_' + n, None)
+                if orig_w is not None:
+                    mobj.__dict__['write_' + n] = _wrap_write(rec, orig_w, i, pid)
 
         ev = owner.triggerPoll
         rec.event = ev
@@ -712,7 +784,7 @@ def impl_run(case):
             b = None
             if idx is not None and rec.poller is not None:
                 b = note_ext(['ui', idx, _tick(pollinterval)])
-                if rec.is_poller() and rec.cur is not None and rec.cur['f'] == 'w':
+                if rec.is_poller() and rec.cur is not None and isinstance(rec.cur['f'], list):
                     # writeInitParams writes the configured poll interval: the module is TOLD its interval, like by any other
                     # assignment — recorded for the judge where it is issued.  (Behind a start-up round that a communication
                     # failure broke off this happens after the start-up callback, i.e. it can come after a client's change.)
@@ -767,6 +839,7 @@ def impl_run(case):
         'started': state['started'],
         'eps': rec.eps,
         'nested': len(rec.nested),
+        'inner': rec.inner,
         'sched': {k: out[k] for k in ('aborted', 'steps', 'deadlock')},
     }
     return obs
@@ -791,8 +864,12 @@ def model_request(obs):
 
 def judge_request(obs):
     touches = [t for c in obs['calls'] for t in c['touch']]
+    evs = [[c['t'], c['m'], c['f'], c['d']] for c in obs['calls']] + ([obs['incomplete']] if obs.get('incomplete') else [])
+    if obs.get('inner'):
+        # read functions called by the poll thread's own code inside another of its calls: events like any other
+        evs = sorted(evs + obs['inner'], key=lambda e: e[0])
     return {'p': 'C13', 'k': 'judge', 'mods': obs['judge_mods'],
-            'evs': [[c['t'], c['m'], c['f'], c['d']] for c in obs['calls']] + ([obs['incomplete']] if obs.get('incomplete') else []),
+            'evs': evs,
             'touches': touches, 'loopStart': obs['loopStart'], 'tEnd': obs['tEnd'], 'alive': obs['alive'],
             'eps': obs['eps']}
 
@@ -864,6 +941,10 @@ def gen_case(rng, big, T):
             params.append({'name': names[i], 'kind': kind, 'script': gen_script(rng, heavy and rng.random() < 0.3, failing),
                            'values': rng.choice(['changing', 'changing', 'constant'])})
             i += 1
+        for p in params:
+            # a start value (configured) and a write function for it: any kind of declaration, polled or not
+            if p['name'] not in ('value', 'status') and rng.random() < 0.3:
+                p['w'] = [rng.choice([0, 0, 16, 256]), rng.choice(['ok', 'ok', 'ok'] + OUTCOMES[1:])]
         readable_names = [p['name'] for p in params if p['kind'] in ('read', 'nopoll', 'handler')]
         spec = {'base': base, 'has_io': with_io,
                 'pollinterval': rng.choice(POLL_IV), 'slow': rng.choice(SLOW_IV), 'params': params,
@@ -1005,7 +1086,22 @@ def decl_catalogue():
                         {'name': 'c', 'kind': 'none', 'script': [[4, 'ok']]}],
              'doPoll': [[4, 'ok']], 'doPollReads': ['b'], 'init': [[0, 'ok']], 'initReads': [], 'enabled': True}
     io = {'base': 'io', 'pollinterval': 5120, 'slow': 4096, 'params': [], 'enabled': True, 'doPoll': [[0, 'ok']], 'init': [[0, 'ok']]}
-    return [{'mods': [io, mod('handler'), mod('common'), plain], 'actions': [], 'wactions': [], 'T': 30 * TICKS, 'start': 1000}]
+    cases = [{'mods': [io, mod('handler'), mod('common'), plain], 'actions': [], 'wactions': [], 'T': 30 * TICKS, 'start': 1000}]
+    # the same declarations, every parameter with a start value and a write function: written in the start-up round;
+    # and once more with the round broken off by a communication failure in the first module behind the io module, so that
+    # the start values of the others are written by the `writeInitParams` calls behind the round
+    import copy
+    for first_init in ([[0, 'ok']], [[4, 'comm']]):
+        mods = copy.deepcopy([io, mod('handler'), mod('common'), plain])
+        only_written = copy.deepcopy(plain)
+        only_written['enabled'] = False
+        mods.append(only_written)
+        for k, m in enumerate(mods[1:]):
+            for j, p in enumerate(m['params']):
+                p['w'] = [4, ['ok', 'secop', 'zd', 'comm', 'silent', 'key'][(j + k) % 6]]
+        mods[1]['init'] = first_init
+        cases.append({'mods': mods, 'actions': [], 'wactions': [], 'T': 30 * TICKS, 'start': 1000})
+    return cases
 
 
 def window_catalogue():
@@ -1095,7 +1191,8 @@ BOUNDARY = [
 def classify_violation(obs, judge):
     if not judge['alive']:
         last = obs['calls'][-1] if obs['calls'] else None
-        where = 'start' if last is None else {'i': 'initialReads', 'w': 'writeInitParams', 'd': 'doPoll'}.get(last['f'], 'read')
+        where = ('start' if last is None else 'writeInitParams' if isinstance(last['f'], list)
+                 else {'i': 'initialReads', 'd': 'doPoll'}.get(last['f'], 'read'))
         return f'C13:thread-died:{where}'
     if not judge['nopoll']:
         return 'C13:nopoll-read'
@@ -1235,9 +1332,17 @@ def run(ctx):
         res.count('interval0' if zero_interval(case) else 'interval>0')
         res.count('failing-calls=%s' % ('0' if not fails else '1-9' if fails < 10 else '10+'))
         res.count('startup-abort' if model.get('aborted') else 'startup-complete')
-        late = [c for c in obs['calls'] if c['f'] == 'w']
-        if any(c['d'] > 0 for c in late):
+        wcalls = [c for c in obs['calls'] if isinstance(c['f'], list)]
+        if any(c['d'] > 0 and obs['started'] is not None and c['t'] >= obs['started'] for c in wcalls):
             res.count('late-write-takes-time')
+        res.count('startup-write-calls=%s' % ('0' if not wcalls else '1-3' if len(wcalls) < 4 else '4+'))
+        for k, m in enumerate(case['mods']):
+            pos = obs['order'].index('m%d' % k)
+            names_k, decls_k = obs['names'][pos], obs['model_mods'][pos]['decls']
+            for p in m['params']:
+                if p.get('w') and p['name'] in names_k:
+                    d = decls_k[names_k.index(p['name'])]
+                    res.count('start-value.%s%s.%s' % (d[0], '.nopoll' if d[1] or d[2] else '', p['w'][1]))
         if any(m.get('doPollActs') for m in case['mods']):
             res.count('commands-from-own-doPoll')
         for m in case['mods']:
@@ -1260,8 +1365,9 @@ def run(ctx):
             if obs['model_flags'] != obs['impl_flags']:
                 res.disagreements.append({'case': case, 'model': {'poll_flags': obs['model_flags']},
                                           'impl': {'poll_flags': obs['impl_flags'], 'decls': [m['decls'] for m in obs['model_mods']]}})
-            elif obs.get('drift'):
-                res.disagreements.append({'case': case, 'model': 'no slot for what the implementation did', 'impl': obs['drift']})
+            elif obs.get('drift') or obs.get('inner'):
+                res.disagreements.append({'case': case, 'model': 'no slot for what the implementation did',
+                                          'impl': obs['drift'] or f'read functions called by the poll thread inside another of its calls: {obs["inner"][:3]}'})
             elif mevs != evs or (obs['calls'] and model['loopStart'] != obs['loopStart'] and obs['advs']):
                 k = next((i for i, (x, y) in enumerate(zip(mevs, evs)) if x != y), min(len(mevs), len(evs)))
                 res.disagreements.append({'case': case, 'model': {'first_diff': k, 'evs': mevs[max(0, k - 2):k + 3], 'n': len(mevs),
